@@ -57,7 +57,7 @@ var _ RawRegister = TXTPublicKey{}
 
 // ReadTXTPublicKey reads a txt public key register from TXT config
 func ReadTXTPublicKeyRegister(data TXTConfigSpace) (TXTPublicKey, error) {
-	buf := bytes.NewReader(data[TXTPublicKeyRegisterOffset:])
+	buf := bytes.NewReader(data.from(TXTPublicKeyRegisterOffset))
 	var register TXTPublicKey
 	if err := binary.Read(buf, binary.LittleEndian, &register); err != nil {
 		return register, err
